@@ -700,7 +700,33 @@ func (c *c15) evalCase(r *fw.Rec, rng *rand.Rand) {
 	}
 }
 
+// sharedAddProbe: the object made from a value given to Script.Add is shared by every Compiled the
+// Script produces, so an in-place update by one compiled object's run shows in another one that
+// was never run or set. Exact history, listed as a known finding.
+func (c *c15) sharedAddProbe(r *fw.Rec) {
+	s := tengo.NewScript([]byte("a[0] += 1\n"))
+	_ = s.Add("a", []interface{}{1})
+	c1, e1 := s.Compile()
+	if e1 != nil {
+		return
+	}
+	_ = c1.RunContext(bg)
+	c2, e2 := s.Compile()
+	if e2 != nil {
+		return
+	}
+	r.Eval()
+	r.Inc("b:shared-add-probe")
+	if got := canon(c2.Get("a").Object()); got != "[i1]" {
+		r.Violate("history:add-value-shared-between-compiles", "a freshly compiled object reads a value nobody set on it: the value given to Script.Add was changed in place by another compiled object's run",
+			map[string]interface{}{"history": []string{`s := NewScript("a[0] += 1")`, `s.Add("a", []interface{}{1})`, "c1 := s.Compile()", "c1.Run()", "c2 := s.Compile()", `c2.Get("a")`}, "got": got, "want": "[i1] (the last value the host set)"})
+	}
+}
+
 func (c *c15) RunCase(r *fw.Rec, cs fw.Case) {
+	if cs.Index == 0 {
+		c.sharedAddProbe(r)
+	}
 	rng := cs.Rng("c15")
 	switch cs.Index % 4 {
 	case 0, 1:
